@@ -6,6 +6,36 @@ PURE_OBS = None  # compare every line
 NOT_APPLICABLE = {}
 
 PROPS = {
+    'C01': {
+        'families': [('ep:pipe', 400, 12000), ('ep:sizes', 400, 8000), ('tp', 100, 3000)],
+        'rule': 'message sequences (text, binary, ping, pong) with payload sizes 0, 1, 125/126/127, 4095..4097, 65535/65536/65537, 70000 written by a '
+                'real endpoint of either role under partial writes and WouldBlock, its real wire output read by a real endpoint of the other role '
+                'under several segmentations, pre-read splits and six read-buffer sizes; read list compared with written list',
+        'assumptions': ['text payloads are valid UTF-8 (true of every Utf8Bytes) and control payloads are at most 125 bytes (documented precondition '
+                        'of Message::Ping/Pong; a longer one is written and rejected by the peer as ControlFrameTooBig)',
+                        'total wire image below 2^64 bytes'],
+        'trusted_base': ['Spec/Rfc6455.lean as specification'],
+        'level_text': 'Kernel-checked, unbounded in count and size: decode(encode(msgs)) = msgs at the level of whole message sequences for both '
+                      'directions, every key and every payload length (C01_spec_roundtrip); the writer puts exactly the concatenated encodings on the '
+                      'wire under every buffer size and partial-write behaviour (C01_writer_wire, with C10); the reader returns exactly the messages and '
+                      'then blocks for every pre-read split and segmentation (C01_end_to_end, through the C05 refinement).',
+        'level_note': 'Composition of C10, C18, C19, C05. BytesMut capacity policy is not modelled (chunk sizes universally quantified).',
+    },
+    'C04': {
+        'families': [('tp', 2000, 60000), ('ep:close', 500, 10000)],
+        'rule': 'two real endpoints (client and server) joined by two in-memory pipes: adaptive random schedules of {write data, ping, pong, flush, read, '
+                'close} on both sides x delivery granularity (1 byte .. all) x write-side WouldBlock windows x flush blocks, incl. simultaneous close and '
+                'close with data or pings in flight; then a fair drain phase (both flush and read, drop the transport on ConnectionClosed)',
+        'assumptions': ['termination under the fair driver ("both told ConnectionClosed after finitely many steps, server first") is NOT a theorem: '
+                        'it is checked on the real crate by the joint monitor on every generated schedule (partial)'],
+        'trusted_base': [],
+        'level_text': 'Kernel-checked safety by composition: on ANY prefix of the wire image of frames that are legitimate for the sender\'s role with '
+                      'nothing after a Close (guaranteed for every reachable sender state by C09_queued_wellformed, C03_close_is_last, C10_fifo) the '
+                      'receiver\'s decoder never reports an error, delivers one message per frame in order and ends closed iff a Close was sent; '
+                      'transferred to the reading endpoint for every segmentation through C05 (C04_reader_sees_no_protocol_error). '
+                      'D1 and D4 were genuine violations of this property and were repaired.',
+        'level_note': 'Partial: liveness. The per-side monitors of C03, C07 and C13 also run on both sides of every two-party case.',
+    },
     'C07': {
         'families': [('corpus:', 0, 0), ('ep:hostile', 2500, 80000), ('ep:mixed', 500, 20000), ('ep:limits', 300, 10000),
                      ('hs:server', 1200, 40000), ('hs:client', 1200, 40000), ('tp', 150, 4000)],
